@@ -53,6 +53,15 @@ def build_therm(sc):
     raise ValueError(sysn)
 
 
+def _typed_set(tp, targs):
+    if len(targs) == 2:
+        tp.setTemperatureArray(*targs)
+    elif callable(targs[0]):
+        tp.setTemperatureFunction(targs[0])
+    else:
+        tp.setIsothermalTemperature(targs[0])
+
+
 def build_model(sc, therm=None, temperature_entry="setter"):
     """Builds a PrecipitateModel from a scenario dict.  Returns (model, therm)."""
     from kawin.precipitation import PrecipitateModel
@@ -66,16 +75,22 @@ def build_model(sc, therm=None, temperature_entry="setter"):
         elements = list(sc["elements"])
     kw = {}
     targs = make_temperature(sc["T"])
-    prior = list(sc.get("T_prior", [])) if temperature_entry == "history" else []
+    prior = list(sc.get("T_prior", [])) if temperature_entry in ("history", "typed") else []
     if temperature_entry == "constructor":
         kw["temperatureParameters"] = TemperatureParameters(*targs)
+    elif temperature_entry == "typed_ctor":       # empty parameter object configured through its typed setter, then handed to the constructor
+        tp = TemperatureParameters()
+        _typed_set(tp, targs)
+        kw["temperatureParameters"] = tp
     elif prior and prior[0][0] == "ctor":
         kw["temperatureParameters"] = TemperatureParameters(*make_temperature(prior.pop(0)[1]))
     m = PrecipitateModel(phases=names, elements=elements, thermodynamics=therm, **kw)
     m.setInitialComposition(sc["x0"] if binary else list(sc["x0"]))
     for how, spec in prior:            # earlier schedules, each replaced by the next: only the last one set may matter
         m.setTemperature(*make_temperature(spec))
-    if temperature_entry != "constructor":
+    if temperature_entry == "typed":              # typed setter called on the model's parameter object (after any earlier schedules)
+        _typed_set(m.temperatureParameters, targs)
+    elif temperature_entry not in ("constructor", "typed_ctor"):
         m.setTemperature(*targs)
     va = sc["VmA"]
     m.setVolumeAlpha(va[0], va[1], va[2])
